@@ -552,6 +552,7 @@ func check(id, tier string) int {
 	exit := 0
 	nviol := 0
 	var lines []string
+	var unrepro []error
 	if agg.Hang != nil {
 		path, v, err := confirmHang(spec, tier, base, agg.Hang)
 		if err != nil {
@@ -578,8 +579,11 @@ func check(id, tier string) int {
 		}
 		path, rf, err := minimiseAndRecord(spec, tier, base, f)
 		if err != nil {
-			fmt.Fprintf(os.Stderr, "verif: %v\n", err)
-			return 2
+			// Judged after the loop: next to a class that does replay this is
+			// a remark (a changed tree may add outcomes that depend on what
+			// the simulator does not decide); on its own it is exit 2.
+			unrepro = append(unrepro, err)
+			continue
 		}
 		if k := matchKnown(known, rf.Violation); k != nil {
 			lines = append(lines, fmt.Sprintf("KNOWN-FINDING: property=%s %s [class %s, %d runs, replay=%s]", rf.Property, k.What, c, agg.ClassCounts[c], path))
@@ -593,6 +597,16 @@ func check(id, tier string) int {
 		// another property checked on the way (e.g. a reply checked inside a
 		// reader run) is named in the class.
 		lines = append(lines, fmt.Sprintf("VIOLATION property=%s replay=%s", spec.ID, path))
+	}
+	for _, e := range unrepro {
+		if nviol == 0 {
+			fmt.Fprintf(os.Stderr, "verif: %v\n", e)
+		} else {
+			fmt.Fprintf(os.Stderr, "verif: note (another class of this batch was confirmed and is reported): %v\n", e)
+		}
+	}
+	if len(unrepro) > 0 && nviol == 0 {
+		return 2
 	}
 	wall := time.Since(start).Seconds()
 	if err := writeEvidence(spec, tier, base, agg, len(distinct), wall, nviol, classes); err != nil {
